@@ -12,7 +12,8 @@ for t in $targets; do
   for i in 0 1 2; do
     mkdir -p $work/$t-c$i $work/$t-a$i; chmod 777 $work/$t-c$i $work/$t-a$i
     cp ../fuzz/seeds/$t/* $work/$t-c$i/ 2>/dev/null; chmod 666 $work/$t-c$i/* 2>/dev/null
-    ( cd $work && VERIF_SCRATCH=$work ../../verif-ignore 2>/dev/null; cd $work && VERIF_SCRATCH=$work "$OLDPWD/../fuzz/target/x86_64-unknown-linux-gnu/release/$t" $t-c$i -max_total_time=$secs -seed=$((i+11)) -len_control=0 -max_len=420 -print_final_stats=1 -artifact_prefix=$work/$t-a$i/ > $work/$t-log$i 2>&1 ) &
+    bin="$(pwd)/../fuzz/target/x86_64-unknown-linux-gnu/release/$t"
+    ( cd $work && VERIF_SCRATCH=$work "$bin" $t-c$i -max_total_time=$secs -seed=$((i+11)) -len_control=0 -max_len=420 -print_final_stats=1 -artifact_prefix=$work/$t-a$i/ > $work/$t-log$i 2>&1 ) &
   done
 done
 wait
